@@ -87,7 +87,7 @@ def run_pure(case, timeout=30):
         stdin = "".join(x + "\n" for x in case.get("inputs", []))
         p = subprocess.run([PY, "-X", "utf8", "-s", fn], cwd=d, env=child_env(), input=stdin.encode("utf-8"),
                            capture_output=True, timeout=timeout)
-        out = p.stdout.decode("utf-8", "replace").replace("\r\n", "\n")
+        out = p.stdout.decode("utf-8", "replace")       # the bytes as written: no newline translation of any kind
         err = p.stderr.decode("utf-8", "replace")
         outcome = None
         if p.returncode != 0:
@@ -189,10 +189,13 @@ def run_sandbox(case):
         except BaseException as e:  # noqa
             res["calls"].append({"result": ["escaped", type(e).__name__]})
             continue
+        line = None
         if sb.exception is not None:
             exc = sb.exception
             exc = getattr(exc, "_actual_value", exc)
             out = ["exc", type(exc).__name__]
+            loc = getattr(sb.feedback, "location", None) if sb.feedback is not None else None
+            line = getattr(loc, "line", None) if loc is not None else None
         else:
             out = ["ret", ref.describe(getattr(r, "_actual_value", r))]
         code = sb._context[-1].code if sb._context else None
@@ -201,7 +204,7 @@ def run_sandbox(case):
                          if isinstance(k, str) and k not in SANDBOX_OWN and
                          (k not in sb.data or k not in keys_before or id(sb.data[k]) != keys_before[k])
                          and not is_injected(sb.data.get(k, keys_before.get(k))))
-        res["calls"].append({"result": out, "out": sb.raw_output[before:], "code": code,
+        res["calls"].append({"result": out, "line": line, "out": sb.raw_output[before:], "code": code,
                              "changed_keys": changed, "target": target,
                              "temporaries_left": sorted(k for k in sb.data if isinstance(k, str) and k.startswith("_temporary_")
                                                         and k not in keys_before)})
@@ -297,6 +300,19 @@ def oracle(case, refres, sb):
             return call_signature(case, c, rc, sc, refres["globals"]), "call %s(%s%s): sandbox %r, direct call %r" % (
                 c["fn"], ", ".join(c.get("args", [])),
                 "".join(", %s=%s" % kv for kv in c.get("kwargs", {}).items()), sc["result"], rc["result"])
+        if rc["result"][0] == "exc" and rc["result"][1] != "RecursionError" and rc.get("line") is not None \
+                and sc.get("line") != rc["line"]:
+            # the exception was raised inside the program's own code: "the same exception" is the same kind of
+            # exception at the same line of the program (a failure of the call expression itself - wrong arity,
+            # a name that is not a function - has no line in the program and is not compared)
+            return (override_cause(c, refres["globals"]) or {"kind": "call-line", "cls": rc["result"][1]},
+                    "call %s(%s): %s located at line %r by the sandbox, raised at line %r when called directly" % (
+                        c["fn"], ", ".join(c.get("args", []))[:80], rc["result"][1], sc.get("line"), rc["line"]))
+        if rc.get("events") is not None and sc.get("out") is not None and not exhausted(rc["events"]) \
+                and sc["out"] not in echo_variants(rc["events"]):
+            return (override_cause(c, refres["globals"]) or {"kind": "call-output"},
+                    "call %s(%s): printed text differs: sandbox %r, direct call %r" % (
+                        c["fn"], ", ".join(c.get("args", []))[:80], sc["out"][-80:], plain_text(rc["events"])[-80:]))
     return None
 
 
@@ -309,11 +325,17 @@ def arg_class(expr):
 OVERRIDE_NAMES = ("compile", "eval", "exec", "globals", "exit", "open", "input", "__import__")
 
 
-def call_signature(case, c, rc, sc, program_globals=()):
+def override_cause(c, program_globals=()):
     if c["fn"] in OVERRIDE_NAMES or any(n in OVERRIDE_NAMES for n in program_globals):
         # the program defines a global with the name of a builtin the sandbox overrides: every execution after the
-        # run() rewrites that global with the sandbox's own object
+        # run() rewrites that global with the sandbox's own object (the open finding, whatever it then leads to)
         return {"kind": "call", "cause": "student-global-named-like-override"}
+    return None
+
+
+def call_signature(case, c, rc, sc, program_globals=()):
+    if override_cause(c, program_globals):
+        return override_cause(c, program_globals)
     if sc["result"] == ["exc", "KeyError"] and rc["result"][0] == "exc" and "KeyError" in rc.get("mro", []):
         return {"kind": "outcome", "cause": "keyerror-subclass-replaced"}
     classes = sorted({arg_class(a) for a in list(c.get("args", [])) + list(c.get("kwargs", {}).values())})
